@@ -288,6 +288,8 @@ func checkC13(c *Ctx) {
 
 	// ---- R9 every HTTP method is indexed (an unlisted method's endpoints are never compared)
 	checkMethodExhaustive(c, "C13.R9.methods", pk, 1)
+	c.Rule("C13.R4.location-key", "every location a shared schema is referenced from is compared: the visited-set key reads every field of the location", 4)
+	checkLocationKey(c, "C13.R4.location-key", pk)
 }
 
 func paramIndex(info *types.Info, fd *ast.FuncDecl, v *types.Var) int {
